@@ -10,13 +10,16 @@ META = {
     "title": "Worklist, union-find and scoped dictionary follow their abstract models",
     "category": "proof",
     "design_ref": "DESIGN.md §5 C12",
-    "lean_modules": ["XdslProofs.C12", "XdslProofs.C12Worklist"],
+    "lean_modules": ["XdslProofs.C12", "XdslProofs.C12Worklist", "XdslProofs.C12UnionFind"],
     "text": (
         "Lean theorems: the tombstoned-stack Worklist refines a duplicate-free LIFO stack for every "
         "history (step_refines/run_refines/history_refines); all ScopedDict lookup forms equal the "
-        "innermost-binding lookup for every chain and value incl. None/0; IntDisjointSet find/union/"
-        "union_left preserve the forest invariant and the represented partition is exactly the one "
-        "generated by the unions performed. The hand-written models are tied to /repo by running every "
+        "innermost-binding lookup for every chain and value incl. None/0; IntDisjointSet add/find/union/"
+        "union_left/connected preserve the forest invariant (acyclic by rank witness, counts = class "
+        "sizes; the loop fuel is never exhausted, by pigeonhole), and for every history the "
+        "represented partition is exactly the equivalence closure of the unions performed "
+        "(uf_history/uf_connected), find returns a class member, union/union_left return true iff "
+        "the classes differed and union_left keeps the left representative (uf_union_left_rep). The hand-written models are tied to /repo by running every "
         "operation sequence up to a bound (exhaustive) plus long random ones on the real classes and "
         "on the Lean driver and diffing every return value."
     ),
